@@ -57,7 +57,30 @@ FUNCTIONS = [
      [("node", "node")], "optstr"),
     ("rules/restate_subtraction.py", "RestateSubtractionRule", "get_type", "RestateSubtractionRule_get_type",
      [("node", "node")], "optstr"),
+    ("rules/distributive_factor_out.py", "DistributiveFactorOutRule", "get_type", "DistributiveFactorOutRule_get_type",
+     [("node", "node")], "opt3t"),
+    ("rules/distributive_factor_out.py", "DistributiveFactorOutRule", "can_apply_to",
+     "DistributiveFactorOutRule_can_apply_to", [("self.constants", "bool"), ("node", "node")], "bool"),
+    ("rules/variable_multiply.py", "VariableMultiplyRule", "get_type", "VariableMultiplyRule_get_type",
+     [("node", "node")], "opt3t"),
+    ("rules/variable_multiply.py", "VariableMultiplyRule", "can_apply_to", "VariableMultiplyRule_can_apply_to",
+     [("node", "node")], "bool"),
 ]
+
+# self.<method>(node) inside a translated method of the same class
+SELF_CALLS = {
+    ("DistributiveFactorOutRule", "get_type"): ("DistributiveFactorOutRule_get_type", "opt3t"),
+    ("VariableMultiplyRule", "get_type"): ("VariableMultiplyRule_get_type", "opt3t"),
+}
+# externals: functions of util.py that are NOT translated (hand-written model, see Model/PyRt.lean)
+EXTERNALS = {"get_term_ex": ("Ref.get_term_ex", ["node"], "term"),
+             "factor_add_terms_ex": ("pyFactorAddTermsEx", ["term", "term"], "factres")}
+TYPED_ATTRS = {
+    ("term", "variable"): ("termVar", "optchar"), ("term", "exponent"): ("termExp", "num"),
+    ("term", "coefficient"): ("termCoef", "num"),
+    ("factres", "best"): ("frBest", "num"), ("factres", "variable"): ("frVar", "optchar"),
+    ("factres", "exponent"): ("frExp", "num"),
+}
 
 METHOD_CALLS = {  # method name -> (lean function taking the receiver, result type)
     "get_child": ("Ref.get_child", "node"),
@@ -72,7 +95,8 @@ def lean_str(s):
 
 
 class FnTranslator:
-    def __init__(self, consts, params, ret):
+    def __init__(self, consts, params, ret, cls=None):
+        self.cls = cls
         self.consts = consts          # module-level NAME -> python constant
         self.ret = ret
         self.env = {}                 # local python name -> (lean name, type)
@@ -107,6 +131,9 @@ class FnTranslator:
             if dotted in self.env:          # self.preferred
                 return self.env[dotted]
             base, ty = self.expr(e.value)
+            if (ty, e.attr) in TYPED_ATTRS:
+                fn, rty = TYPED_ATTRS[(ty, e.attr)]
+                return f"({fn} {base})", rty
             if ty != "node":
                 raise Untranslatable(f"attribute .{e.attr} of {ty}")
             if e.attr in NODE_ATTRS:
@@ -147,6 +174,10 @@ class FnTranslator:
             return c
         if ty == "node":
             return f"(Ref.truthy {c})"
+        if ty in ("term", "factres", "optchar", "opt3t"):
+            return f"(Option.isSome {c})"
+        if ty == "num":
+            return f"(numTruthy {c})"
         raise Untranslatable(f"truth value of {ty}")
 
     def compare(self, e):
@@ -157,7 +188,7 @@ class FnTranslator:
         lc, lt = self.expr(l)
         rc, rt = self.expr(r)
         if isinstance(op, (ast.Is, ast.IsNot)):
-            if rt == "none" and lt in ("node", "num"):
+            if rt == "none" and lt in ("node", "num", "term", "optchar", "factres", "opt3t"):
                 return (f"(Option.isNone {lc})" if isinstance(op, ast.Is) else f"(Option.isSome {lc})"), "bool"
             if lt == "bool" and rt == "bool":
                 return (f"({lc} == {rc})" if isinstance(op, ast.Is) else f"({lc} != {rc})"), "bool"
@@ -168,6 +199,8 @@ class FnTranslator:
             if isinstance(op, ast.Eq):
                 return f"(numEq {lc} {rc})", "bool"
             raise Untranslatable("numeric comparison")
+        if lt == rt == "optchar" and isinstance(op, (ast.Eq, ast.NotEq)):
+            return (f"({lc} == {rc})" if isinstance(op, ast.Eq) else f"({lc} != {rc})"), "bool"
         if lt == rt and lt in ("str", "int", "bool"):
             sym = {ast.Eq: "==", ast.NotEq: "!=", ast.Lt: "<", ast.Gt: ">", ast.LtE: "<=", ast.GtE: ">="}.get(type(op))
             if sym is None:
@@ -210,11 +243,22 @@ class FnTranslator:
                 return self.expr(e.args[1])
             if f.id == "bool":
                 return self.truth(e.args[0]), "bool"
+            if f.id in EXTERNALS:
+                name, atys, rty = EXTERNALS[f.id]
+                args = [self.expr(a) for a in e.args]
+                if [a[1] for a in args] != atys:
+                    raise Untranslatable(f"arguments of {f.id}: {[a[1] for a in args]}")
+                return f"({name} " + " ".join(a[0] for a in args) + ")", rty
             if f.id in MODULE_CALLS:
                 name, ty = MODULE_CALLS[f.id]
                 args = [self.expr(a) for a in e.args]
                 return f"({name} " + " ".join(a[0] for a in args) + ")", ty
             raise Untranslatable(f"call of {f.id}")
+        if isinstance(f, ast.Attribute) and isinstance(f.value, ast.Name) and f.value.id == "self" \
+                and (self.cls, f.attr) in SELF_CALLS:
+            name, rty = SELF_CALLS[(self.cls, f.attr)]
+            args = [self.expr(a) for a in e.args]
+            return f"({name} " + " ".join(a[0] for a in args) + ")", rty
         if isinstance(f, ast.Attribute):
             recv = self.expr(f.value)
             if f.attr == "get_side":
@@ -261,6 +305,11 @@ class FnTranslator:
                 return "none"
             if ty == "tuple:str,node,node":
                 return f"(some {c})"
+        if r == "opt3t":
+            if ty == "none":
+                return "none"
+            if ty == "tuple:str,term,term":
+                return f"(some {c})"
         raise Untranslatable(f"return of {ty} in a function returning {r}")
 
     def assigned(self, stmts):
@@ -291,6 +340,21 @@ class FnTranslator:
             return self.block(rest, ind)
         if isinstance(s, ast.Return):
             return pad + self.ret_value(s.value)
+        if isinstance(s, ast.Assign) and len(s.targets) == 1 and isinstance(s.targets[0], ast.Tuple):
+            names = [t.id for t in s.targets[0].elts if isinstance(t, ast.Name)]
+            c, ty = self.expr(s.value)
+            if ty != "opt3t" or len(names) != 3:
+                raise Untranslatable("tuple unpacking")
+            saved = dict(self.env)
+            lets = []
+            for nm, (fn, fty) in zip(names, [("tupName", "str"), ("tupLeft", "term"), ("tupRight", "term")]):
+                self.fresh += 1
+                lean = f"{nm}_{self.fresh}"
+                lets.append(f"{pad}let {lean} := ({fn} {c});\n")
+                self.env[nm] = (lean, fty)
+            body = self.block(rest, ind)
+            self.env = saved
+            return "".join(lets) + body
         if isinstance(s, (ast.Assign, ast.AnnAssign)):
             if isinstance(s, ast.Assign):
                 if len(s.targets) != 1 or not isinstance(s.targets[0], ast.Name):
@@ -347,7 +411,8 @@ class FnTranslator:
         raise Untranslatable(type(s).__name__)
 
 
-RET_LEAN = {"bool": "Bool", "int": "Int", "optstr": "Option String", "opt3": "Option (String × Ref × Ref)"}
+RET_LEAN = {"bool": "Bool", "int": "Int", "optstr": "Option String", "opt3": "Option (String × Ref × Ref)",
+            "opt3t": "Option (String × Option TermEx × Option TermEx)"}
 TY_LEAN = {"node": "Ref", "bool": "Bool", "char": "Char"}
 
 
@@ -398,7 +463,7 @@ def translate_all(repo=None):
             consts = module_consts(tree)
             if file == "expressions.py":
                 pass
-            tr = FnTranslator(consts, params, ret)
+            tr = FnTranslator(consts, params, ret, cls)
             body = tr.block(node.body, 1)
             sig = " ".join(f"({tr.env[p][0]} : {TY_LEAN[t]})" for p, t in params)
             out.append(f"/-- `{file}`: `{(cls + '.') if cls else ''}{fn}` -/\ndef {lean} {sig} : {RET_LEAN[ret]} :=\n{body}\n")
